@@ -12,6 +12,11 @@ RULES = {"C08.a", "C08.b", "C08.c", "C08.d", "C08.e"}
 
 
 def check(ctx):
+    # a class id selects a predicate in the table of the scanner that is being built: a compiled automaton — a lookahead's too —
+    # is compiled against THIS build's registry and not edited or replaced afterwards (C02.m: closed writer sets; a compilation
+    # memoised across builds carries the class numbering of another registry)
+    from .common import compiled_scanner_is_frozen
+    compiled_scanner_is_frozen(ctx, "C02.m")
     classes.analyze(ctx, RULES)
     sharing.analyze(ctx, {"C08.e", "C02.f"})
     # the predicate is built from the class that was registered: the transition of a class node must be labelled with the
